@@ -146,3 +146,118 @@ Proof.
   exact (mov_row_lifts C C0 C1 Cplus Cmult Cminus Copp C_ring_theory Comega Chalf Comega32 Chalf2
            Cconj Cconj_0 Cconj_1 Cconj_add Cconj_mul Cconj_opp Cconj_omega Cconj_half r Hg Hs).
 Qed.
+
+(* ---- the complex images of the rotation matrices are the textbook matrices ---- *)
+Definition ang (k : nat) : R := INR k * (PI / 32).
+
+Lemma trig_mod : forall k, cos (ang k) = cos (ang (k mod 64)) /\ sin (ang k) = sin (ang (k mod 64)).
+Proof.
+  intros k. unfold ang.
+  assert (Hk : (k = 64 * (k / 64) + k mod 64)%nat) by (apply Nat.div_mod; lia).
+  rewrite Hk at 1 3. rewrite plus_INR, mult_INR.
+  replace (INR 64) with 64 by (rewrite INR_IZR_INZ; reflexivity).
+  replace ((64 * INR (k / 64) + INR (k mod 64)) * (PI / 32))
+    with (INR (k mod 64) * (PI / 32) + 2 * INR (k / 64) * PI) by field.
+  split; [apply cos_period | apply sin_period].
+Qed.
+
+Lemma trig_compl : forall m, (m <= 64)%nat ->
+  cos (ang (64 - m)) = cos (ang m) /\ sin (ang (64 - m)) = - sin (ang m).
+Proof.
+  intros m Hm. unfold ang. rewrite minus_INR by exact Hm.
+  replace (INR 64) with 64 by (rewrite INR_IZR_INZ; reflexivity).
+  replace ((64 - INR m) * (PI / 32)) with (2 * PI - INR m * (PI / 32)) by field.
+  rewrite cos_minus, sin_minus, cos_2PI, sin_2PI. split; ring.
+Qed.
+
+Lemma cev_kw : forall k, cev (kw k) = (cos (ang k), sin (ang k)).
+Proof. destruct cev_hom as [_ [_ [_ [Hw _]]]]. exact Hw. Qed.
+
+(* w^-k *)
+Lemma cev_kw_inv : forall k, cev (kw (64 - k mod 64)) = (cos (ang k), - sin (ang k)).
+Proof.
+  intros k. rewrite cev_kw.
+  assert (Hm : (k mod 64 <= 64)%nat) by (apply Nat.lt_le_incl, Nat.mod_upper_bound; lia).
+  destruct (trig_compl (k mod 64) Hm) as [Hc Hs]. destruct (trig_mod k) as [Hc' Hs'].
+  rewrite Hc, Hs, <- Hc', <- Hs'. reflexivity.
+Qed.
+
+Lemma cev_kcos : forall k, cev (kcos k) = RtoC (cos (ang k)).
+Proof.
+  intros k. destruct cev_hom as [_ [_ [Hh [_ [Ha [Hm _]]]]]].
+  unfold kcos. rewrite Hm, Ha, Hh, cev_kw, cev_kw_inv.
+  unfold Cmult, Cplus, Chalf, RtoC. cbn [fst snd]. f_equal; field.
+Qed.
+
+Lemma cev_ksin : forall k, cev (ksin k) = RtoC (sin (ang k)).
+Proof.
+  intros k. destruct cev_hom as [_ [_ [Hh [_ [Ha [Hm [Hn [Hs _]]]]]]]].
+  unfold ksin. rewrite Hm, Hm, Hs, Hh, (cev_kw k), cev_kw_inv, (cev_kw 48).
+  unfold ang at 1 2. rewrite INR_IZR_INZ. cbn [Z.of_nat Pos.of_succ_nat Pos.succ].
+  replace (48 * (PI / 32)) with (3 * (PI / 2)) by field. rewrite cos_3PI2, sin_3PI2.
+  unfold Cmult, Cminus, Cplus, Copp, Chalf, RtoC. cbn [fst snd]. f_equal; field.
+Qed.
+
+(* exp(-i theta/2 sigma) with theta/2 = k pi/32, as complex matrices *)
+Definition Crot (a : axis) (t : R) : list (list C) :=
+  let c := RtoC (cos t) in let s := RtoC (sin t) in
+  match a with
+  | AX => [[c; Cmult (Copp Ci) s]; [Cmult (Copp Ci) s; c]]
+  | AY => [[c; Copp s]; [s; c]]
+  | AZ => [[(cos t, - sin t); C0]; [C0; (cos t, sin t)]]
+  end.
+
+Theorem cmev_rot_k : forall a k, cmev (rot_k a k) = Crot a (ang k).
+Proof.
+  intros a k. destruct cev_hom as [H0 [_ [_ [_ [_ [Hm [Hn _]]]]]]].
+  unfold cmev, rot_k, Crot, kmi, k0. destruct a; cbn [map].
+  - rewrite Hm, Hn, cev_ki, cev_kcos, cev_ksin. reflexivity.
+  - rewrite Hn, cev_kcos, cev_ksin. reflexivity.
+  - rewrite cev_kw_inv, cev_kw, H0. reflexivity.
+Qed.
+
+(* complex images of the fixed gates *)
+Definition Ch : C := RtoC (1 / sqrt 2).
+Theorem cmev_fixed :
+  cmev gX = [[C0; C1]; [C1; C0]] /\
+  cmev gY = [[C0; Copp Ci]; [Ci; C0]] /\
+  cmev gZ = [[C1; C0]; [C0; Copp C1]] /\
+  cmev gH = [[Ch; Ch]; [Ch; Copp Ch]] /\
+  cmev gK = [[Ch; Cmult (Copp Ci) Ch]; [Cmult Ci Ch; Copp Ch]] /\
+  cmev gS = [[C1; C0]; [C0; Ci]] /\
+  cmev gT = [[C1; C0]; [C0; (cos (PI / 4), sin (PI / 4))]] /\
+  cmev gCNOT = [[C1;C0;C0;C0]; [C0;C1;C0;C0]; [C0;C0;C0;C1]; [C0;C0;C1;C0]] /\
+  cmev gCPHASE = [[C1;C0;C0;C0]; [C0;C1;C0;C0]; [C0;C0;C1;C0]; [C0;C0;C0;Copp C1]].
+Proof.
+  destruct cev_hom as [H0 [H1 [_ [_ [_ [Hm [Hn _]]]]]]].
+  unfold cmev, gX, gY, gZ, gH, gK, gS, gT, gCNOT, gCPHASE, k0, k1, km1, kmi, Ch. cbn [map].
+  rewrite ?Hm, ?Hn, ?H0, ?H1, ?cev_ki, ?cev_krsqrt2, ?cev_kw.
+  unfold ang. rewrite INR_IZR_INZ. cbn [Z.of_nat Pos.of_succ_nat Pos.succ].
+  replace (8 * (PI / 32)) with (PI / 4) by field.
+  repeat split; reflexivity.
+Qed.
+
+(* ---- C10 part (a) over C ---- *)
+From NQ Require Import Epr.BellRing Proofs.BellProofs Proofs.BellLift.
+
+Definition bell_fix_in_C (num : list (bell * Z)) (corr : list (Z * list qop)) : Prop :=
+  bell_fix_in C C0 C1 Cplus Cmult Copp Comega Chalf num corr.
+
+Lemma bell_fix_lifts_C : forall num corr, bell_fix_stmt num corr -> bell_fix_in_C num corr.
+Proof.
+  intros num corr H.
+  exact (bell_fix_lifts C C0 C1 Cplus Cmult Cminus Copp C_ring_theory Comega Chalf Comega32 Chalf2 num corr H).
+Qed.
+
+(* the complex images of the Bell vectors are the textbook vectors *)
+Lemma cmev_bell : forall b, cmev (bell_vec b) =
+  match b with
+  | BPhiPlus => [[Ch]; [C0]; [C0]; [Ch]]
+  | BPsiPlus => [[C0]; [Ch]; [Ch]; [C0]]
+  | BPsiMinus => [[C0]; [Ch]; [Copp Ch]; [C0]]
+  | BPhiMinus => [[Ch]; [C0]; [C0]; [Copp Ch]]
+  end.
+Proof.
+  destruct cev_hom as [H0 [_ [_ [_ [_ [_ [Hn _]]]]]]].
+  intros b. unfold cmev, Ch. destruct b; cbn [bell_vec map]; rewrite ?Hn, ?H0, ?cev_krsqrt2; reflexivity.
+Qed.
